@@ -241,7 +241,7 @@ PROPS['C35'] = {
     'parts': [K('kani:sniff_piece_sizes', 'sdk', [H('c35_sniff_independent_2_short_reads', 'bounded', '<= 2 short reads of arbitrary size, then full reads; 16 symbolic bytes'),
                                                   H('c35_sniff_independent_3_short_reads', 'bounded', '<= 3 short reads of arbitrary size, then full reads; 16 symbolic bytes', tier='thorough')],
                 kind='bounded', timeout=1500, functions=[('sdk/src/jumbf_io.rs', 'container_from_stream')]),
-              B('native:short_reads_and_faults', 'sdk', [{'name': 'c35_short_reads_and_injected_faults', 'tier': 'quick'}], functions=[('sdk/src/reader.rs', 'with_stream')],
+              B('native:short_reads_and_faults', 'sdk', [{'name': 'c35_short_reads_and_injected_faults', 'tier': 'quick'}, {'name': 'c35_short_reads_signed_assets_all_formats', 'tier': 'quick'}], functions=[('sdk/src/reader.rs', 'with_stream')],
                 bounds='reads of 6 fixtures x piece sizes {1,2,3,7,16,1000}; the stream breaking at every operation index (quick: all below 400, then every 13th)')],
     'trusted_base': TB_KANI,
     'rule': 'evaluations = CBMC checks decided in bounded harnesses; every one is an assertion or safety check over symbolic inputs (all counted as non-trivial)',
